@@ -17,7 +17,7 @@ NA = {
     'C18': 'dump-then-parse fidelity is a function of the tree; the stream/file arguments are incidental and nothing is promised about partial writes',
     'C19': 'copy/pickle fidelity is a function of the tree; nothing is promised about truncated pickles or concurrent mutation',
 }
-PLANNED = ['C06', 'C07', 'C12', 'C15']
+PLANNED = ['C07', 'C12', 'C15']
 
 CHECKS = {
     'C20': {
@@ -25,6 +25,11 @@ CHECKS = {
         'note': 'trusts the scheduler to expose the relevant interleavings at Python line/opcode granularity of awesomeyaml frames; windows inside PyYAML or C code are not pre-empted; CPython 3.12.1 only',
         'technique': 'deterministic simulation: seeded thread-schedule search (baton-passing real threads on sys.monitoring events) with isolated-twin oracle',
         'ref': 'DESIGN.md 3.3, 4 (C20)'},
+    'C06': {
+        'text': 'the whole property runs on a simulated file system (in-memory tree, cwd, HOME behind the module-global open/os seams): seeded search over document sequences x delivery plans (separate file/text/stream sources, multi-document files, include lists, per-document includes, include chains 2-3 files deep, key: !include) x directory layouts (next to the including file, sub/parent directory, cwd only, both with a different decoy copy in the cwd, absolute, ~) x fault plans (every kind of file missing; EACCES/EISDIR/EIO/ENAMETOOLONG/EINVAL/EMFILE/undecodable bytes on the k-th open; content replaced between opens; a source failing in open/read followed by further use of the same builder). Oracles: every plan equals the separate-sources route; a lookup model (first existing of [directory of the including file, cwd]) is checked against the open log; a missing file must fail the build with an error naming it and no existing one; under an I/O fault the build fails or returns exactly the fault-free result; !path values equal the location computed from the file each node was physically written in. Sampling, not proof.',
+        'note': 'merge semantics are not re-implemented (routes are compared with each other); cwd/HOME are constant during a build; error classes are not compared across routes, only success/failure',
+        'technique': 'deterministic simulation: simulated file system with seeded layout/fault plans, route-equivalence + lookup-model + fail-or-exact oracles',
+        'ref': 'DESIGN.md 3.2, 4 (C06)'},
     'C17': {
         'text': 'seeded search over operation-and-fault histories on a two-copy store (built-in dict/list storage vs child map): a Hypothesis stateful machine (one PRNG value per simulated run, database off) generates and shrinks sequences of all listed public mutators with in-range / out-of-range / negative / non-integer indices, missing and forbidden keys, unconvertible values, iterators that raise after k items and mappings whose items() raises; after every step a plain dict/list model and the cross-view invariants (same keys, same order, same objects, every entry a node, children 0..n-1, walk==lookup, path text round trip, evaluation == model) are checked; a failed operation must leave the pre-state or, for extend/update, a prefix. Sampling, not proof.',
         'note': 'no asynchronous exceptions are injected; slices/sort/reverse/+=/popitem are outside the statement; operations without a Python-defined result (set_child beyond the end of a list, rename_child) are checked against the invariants only',
